@@ -123,14 +123,22 @@ def handle (req : J) : J :=
           okJ (.arr ((defPaths root []).map fun p =>
             resJ (fun ws => J.arr (ws.map Word.toJ)) (resolveAt env root p diff))))
      | _, _, _ => .str "bad-request")
-  | .arr [.str "expand", fsj, root] =>
+  | .arr (.str "expand" :: fsj :: root :: rest) =>
     (match fsj.getArr, root.getStr with
      | some l, some root =>
-       let fs : FS := l.filterMap (fun e => match e with
+       let pairs (l : List J) : List (Str × Str) := l.filterMap (fun e => match e with
          | .arr [k, v] => (match k.getStr, v.getStr with
-            | some k, some v => some (resolvePath [] k, v) | _, _ => none)
+            | some k, some v => some (k, v) | _, _ => none)
          | _ => none)
-       resJ (fun os => J.arr (os.map Obj.toJ)) (expand fs (resolvePath [] root))
+       let fs : FS := (pairs l).map (fun (k, v) => (resolvePath [] k, v))
+       -- optional: [[import path, scope text]…], current directory
+       let imports : List (Str × Str) := match rest with
+         | ij :: _ => (match ij.getArr with | some il => pairs il | none => [])
+         | [] => []
+       let cwd : Path := match rest with
+         | _ :: cj :: _ => (match cj.getStr with | some c => resolvePath [] c | none => [])
+         | _ => []
+       resJ (fun os => J.arr (os.map Obj.toJ)) (expand { fs := fs, imports := imports, cwd := cwd } (resolvePath [] root))
      | _, _ => .str "bad-request")
   | .arr (.str "fetch" :: mt :: srcs :: diff :: ej :: fj :: rest) =>
     (match mt.getStr, srcs.getArr, diff.getBool, envsOfJ ej fj with
